@@ -380,3 +380,398 @@ Proof.
   unfold lp_ipv6_header. autorewrite with blen. rewrite Ls, Ld.
   assert (Hnil : blen (@nil Z) = 0) by reflexivity. lia.
 Qed.
+
+(* ================================================================================
+   lowpan_roundtrip
+   ================================================================================ *)
+
+(* a datagram the stack can send (ipv6_to_sixlowpan's input): Rust type invariants plus the
+   protocols the 6LoWPAN code handles (UDP through NHC; ICMPv6 / TCP as emitted octets) *)
+Definition lp_dgram_wf (d : lp_dgram) (lls lld : option iphc_ll) : Prop :=
+  iphc_repr_wf (lp_iphc_repr d lls lld) = true /\
+  match ld_pl d with
+  | LpUdp ports data => nhc_ports_wf ports = true /\ bytes_ok data = true /\ blen data < 65000
+  | LpRaw proto bytes => (proto = lp_PROTO_TCP \/ proto = lp_PROTO_ICMPV6) /\ bytes_ok bytes = true /\
+                         blen bytes < 65000
+  end.
+
+(* the compressed packet ipv6_to_sixlowpan writes, and the sizes compressed_packet_size reports *)
+Definition lp_compressed (d : lp_dgram) (lls lld : option iphc_ll) : outcome (list Z) :=
+  let r := lp_iphc_repr d lls lld in
+  match ld_pl d with
+  | LpUdp ports data =>
+      do ck <- nhc_udp_cksum (ld_src d) (ld_dst d) (np_src ports) (np_dst ports) data;
+      Ok (iphc_bytes r ++ nhc_udp_hdr_bytes ports (nhc_ck_tx ck) ++ data)
+  | LpRaw _ bytes => Ok (iphc_bytes r ++ bytes)
+  end.
+
+Lemma lp_wf_addrs d lls lld : lp_dgram_wf d lls lld ->
+  is_arr 16 (ld_src d) = true /\ is_arr 16 (ld_dst d) = true /\ 0 <= ld_hl d < 256.
+Proof.
+  intros (Hr & _). unfold iphc_repr_wf, lp_iphc_repr in Hr. cbn [ir_src ir_dst ir_ll_src ir_ll_dst ir_nh ir_hl ir_ecn ir_dscp ir_flow] in Hr.
+  rewrite !andb_true_iff in Hr. destruct Hr as ((((((H1 & H2) & _) & _) & _) & H6) & _).
+  split; [exact H1|]. split; [exact H2|]. unfold is_u8 in H6. apply andb_prop in H6. destruct H6 as (A & B).
+  apply Z.leb_le in A. apply Z.ltb_lt in B. lia.
+Qed.
+
+(* sizes *)
+Lemma lp_compressed_packet_size_spec d lls lld c : lp_dgram_wf d lls lld ->
+  lp_compressed d lls lld = Ok c ->
+  exists chdr uhdr, lp_compressed_packet_size d lls lld = Ok (blen c, chdr, uhdr) /\
+    0 <= chdr <= uhdr /\ chdr <= blen c /\ chdr <= 45 /\ uhdr <= 48 /\
+    blen c - chdr = lp_payload_len (ld_pl d) + lp_IPV6_HDR - uhdr.
+Proof.
+  intros (Hr & Hp) Hc. unfold lp_compressed_packet_size, lp_compressed in *.
+  rewrite (iphc_buffer_len_spec _ Hr). cbn [obind].
+  pose proof (iphc_bytes_len (lp_iphc_repr d lls lld)) as Hbl.
+  destruct (iphc_repr_wf_inv _ Hr) as (Hs & Hd & _).
+  pose proof (iphc_src_size_mode (ir_src (lp_iphc_repr d lls lld)) (ir_ll_src (lp_iphc_repr d lls lld)) Hs) as Es.
+  pose proof (iphc_dst_size_mode (ir_dst (lp_iphc_repr d lls lld)) (ir_ll_dst (lp_iphc_repr d lls lld)) Hd) as Ed.
+  assert (Hn : 2 <= blen (iphc_bytes (lp_iphc_repr d lls lld)) <= 36).
+  { rewrite Hbl, <- Es, <- Ed.
+    assert (0 <= blen (iphc_nh_bytes (ir_nh (lp_iphc_repr d lls lld))) <= 1) by (destruct (ir_nh _); unfold blen; cbn [iphc_nh_bytes length]; lia).
+    assert (0 <= blen (iphc_hl_bytes (ir_hl (lp_iphc_repr d lls lld))) <= 1)
+      by (unfold iphc_hl_bytes; destruct (_ =? 0); unfold blen; cbn [length]; lia).
+    unfold iphc_src_size_of, iphc_dst_size_of.
+    repeat match goal with |- context [if ?c then _ else _] => destruct c end; lia. }
+  destruct (ld_pl d) as [ports data|proto bytes] eqn:Epl.
+  - obind_inv Hc. injection Hc as <-. destruct Hp as (Hpw & Hdb & Hdl).
+    pose proof (nhc_udp_hdr_bytes_len ports (nhc_ck_tx v)) as Hhl. pose proof (blen_nonneg data).
+    assert (Hh : 4 <= nhc_udp_header_len ports <= 7).
+    { unfold nhc_udp_header_len. repeat match goal with |- context [if ?c then _ else _] => destruct c end; lia. }
+    eexists _, _. split.
+    + f_equal. f_equal. f_equal. rewrite !blen_app, Hhl. lia.
+    + unfold lp_IPV6_HDR, lp_UDP_HDR. zfold. cbn [lp_payload_len]. unfold lp_UDP_HDR. zfold.
+      rewrite !blen_app, Hhl. lia.
+  - injection Hc as <-. destruct Hp as (Hpr & Hbb & Hbl2). pose proof (blen_nonneg bytes).
+    eexists _, _. split.
+    + f_equal. f_equal. f_equal. rewrite blen_app. lia.
+    + unfold lp_IPV6_HDR. zfold. cbn [lp_payload_len]. rewrite blen_app. lia.
+Qed.
+
+(* ---------- ipv6_to_sixlowpan writes the compressed form, whatever the buffer held ---------- *)
+
+Lemma wb_upto_ok l n : 0 <= n <= blen l -> wb_upto l n = Ok (firstn (Z.to_nat n) l).
+Proof. intros H. unfold wb_upto. zbool. reflexivity. Qed.
+
+Lemma lp_ipv6_to_sixlowpan_spec d lls lld c buffer : lp_dgram_wf d lls lld ->
+  lp_compressed d lls lld = Ok c -> bytes_ok buffer = true -> blen c <= blen buffer ->
+  lp_ipv6_to_sixlowpan d lls lld buffer = Ok (c ++ skipn (Z.to_nat (blen c)) buffer).
+Proof.
+  intros Hwf Hc Hb Hl. pose proof Hwf as (Hr & Hp).
+  destruct (lp_wf_addrs d lls lld Hwf) as (Hsa & Hda & _).
+  unfold lp_ipv6_to_sixlowpan, lp_compressed in *.
+  remember (lp_iphc_repr d lls lld) as r eqn:Er.
+  rewrite (iphc_buffer_len_spec r Hr). cbn [obind].
+  pose proof (blen_nonneg (iphc_bytes r)) as Hn0. remember (blen (iphc_bytes r)) as n eqn:En.
+  assert (Hnc : n <= blen c).
+  { destruct (ld_pl d); [obind_inv Hc|]; injection Hc as <-; rewrite blen_app; subst n;
+      [pose proof (blen_nonneg (nhc_udp_hdr_bytes ports (nhc_ck_tx v) ++ data)) | pose proof (blen_nonneg bytes)]; lia. }
+  rewrite wb_upto_ok by lia. cbn [obind].
+  assert (Hbf : bytes_ok (firstn (Z.to_nat n) buffer) = true) by (apply bytes_ok_firstn; assumption).
+  destruct (iphc_roundtrip r (firstn (Z.to_nat n) buffer) [] Hr Hbf
+              ltac:(rewrite blen_firstn by lia; lia)) as (_ & He & _).
+  rewrite <- En in He. rewrite He. cbn [obind].
+  rewrite skipn_all2 by (rewrite firstn_length; unfold blen in *; lia). rewrite app_nil_r.
+  rewrite wb_from_ok by lia. cbn [obind].
+  remember (skipn (Z.to_nat n) buffer) as rest eqn:Erest.
+  assert (Hrl : blen rest = blen buffer - n) by (subst rest; apply blen_skipn; lia).
+  assert (Hbr : bytes_ok rest = true) by (subst rest; apply bytes_ok_skipn; assumption).
+  destruct (ld_pl d) as [ports data|proto bytes] eqn:Epl.
+  - destruct Hp as (Hpw & Hdb & Hdl). obind_inv Hc. injection Hc as <-.
+    pose proof (nhc_udp_hdr_bytes_len ports (nhc_ck_tx v)) as Hhl. pose proof (blen_nonneg data).
+    rewrite !blen_app, <- ?En in *.
+    assert (Hh : 4 <= nhc_udp_header_len ports <= 7).
+    { unfold nhc_udp_header_len. repeat match goal with |- context [if ?c then _ else _] => destruct c end; lia. }
+    rewrite wb_upto_ok by lia. cbn [obind].
+    remember (nhc_udp_header_len ports + blen data) as m eqn:Em.
+    (* the NHC emitter works on exactly header ++ payload space *)
+    destruct (split_hdr (firstn (Z.to_nat m) rest) (nhc_udp_header_len ports)
+                ltac:(rewrite blen_firstn by lia; lia)) as (h & t & Eht & Hh1 & Ht1).
+    rewrite blen_firstn in Ht1 by lia.
+    assert (Hbu : bytes_ok (firstn (Z.to_nat m) rest) = true) by (apply bytes_ok_firstn; assumption).
+    rewrite Eht in *. rewrite bytes_ok_app in Hbu. apply andb_prop in Hbu. destruct Hbu as (Hbh & _).
+    rewrite (nhc_udp_emit_exact ports (ld_src d) (ld_dst d) data v h t Hpw Hbh
+               ltac:(unfold blen; lia) ltac:(lia) E).
+    cbn [obind]. rewrite wb_from_ok by lia. cbn [obind]. f_equal.
+    rewrite <- !app_assoc. f_equal. f_equal. f_equal.
+    subst rest. rewrite skipn_add. f_equal. rewrite Hhl, <- Em. rewrite Z2Nat.inj_add by lia. lia.
+  - destruct Hp as (Hpr & Hbb & Hbl2). injection Hc as <-. pose proof (blen_nonneg bytes).
+    rewrite blen_app, <- ?En in *.
+    unfold wb_set_slice. rewrite Hrl. zbool. change (Z.to_nat 0) with 0%nat. cbn [firstn app obind].
+    rewrite <- app_assoc. f_equal. f_equal. f_equal. subst rest. rewrite skipn_add. f_equal.
+    rewrite Z2Nat.inj_add by lia. lia.
+Qed.
+
+(* ---------- sixlowpan_to_ipv6 on (a prefix of) the compressed form ---------- *)
+
+Lemma nhc_dispatch_cons b0 rest : (Z.shiftr b0 4 =? 14) = false -> (Z.shiftr b0 3 =? 30) = true ->
+  nhc_dispatch (b0 :: rest) = Ok 1.
+Proof.
+  intros H1 H2. unfold nhc_dispatch, wb_get_u8. rewrite blen_cons. pose proof (blen_nonneg rest).
+  zbool. change (Z.to_nat 0) with 0%nat. cbn [nth obind]. unfold wsix_DISPATCH_EXT_HEADER, wsix_DISPATCH_UDP_HEADER.
+  rewrite H1, H2. reflexivity.
+Qed.
+
+Lemma nhc_dispatch_udp_hdr ports ck x : nhc_dispatch (nhc_udp_hdr_bytes ports ck ++ x) = Ok 1.
+Proof.
+  unfold nhc_udp_hdr_bytes. cbv zeta.
+  destruct (nhc_port_4bit (np_src ports) && nhc_port_4bit (np_dst ports));
+    [|destruct (nhc_port_8bit (np_src ports)); [|destruct (nhc_port_8bit (np_dst ports))]];
+    cbn [app]; apply nhc_dispatch_cons; reflexivity.
+Qed.
+
+Lemma firstn_app_exact {A} (a b : list A) n : n = length a -> firstn n (a ++ b) = a.
+Proof. intros ->. rewrite firstn_app, firstn_all, Nat.sub_diag. cbn [firstn]. apply app_nil_r. Qed.
+
+Lemma firstn_app_more {A} (a b : list A) n : (length a <= n)%nat -> firstn n (a ++ b) = a ++ firstn (n - length a) b.
+Proof. intros H. rewrite firstn_app. rewrite firstn_all2 by lia. reflexivity. Qed.
+
+Lemma firstn_prefix_eq (P Q data : list Z) n j : Q = P ++ data -> n = (length P + j)%nat ->
+  firstn n Q = P ++ firstn j data.
+Proof. intros -> ->. rewrite firstn_app_more by lia. f_equal. f_equal. lia. Qed.
+
+Ltac norm_app := unfold lp_ipv6_header, lp_udp_header, be_enc2; cbn [app]; rewrite <- ?app_assoc; cbn [app]; rewrite <- ?app_assoc.
+
+Section Roundtrip.
+  Variables (d : lp_dgram) (lls lld : option iphc_ll) (ctx : list (list Z)).
+  Hypothesis Hwf : lp_dgram_wf d lls lld.
+
+  (* the first k octets of the compressed packet, k beyond the compressed headers, decompress to
+     the first k + header_diff octets of the datagram.  total = None: the whole packet (k = |c|);
+     total = Some |D|: a first fragment. *)
+  Lemma lp_decompress_prefix c D k total buflen :
+    lp_compressed d lls lld = Ok c -> lp_ipv6_bytes d = Ok D ->
+    (total = None /\ k = blen c \/ total = Some (blen D)) ->
+    blen D <= buflen -> k <= blen c ->
+    (match ld_pl d with
+     | LpUdp ports _ => blen (iphc_bytes (lp_iphc_repr d lls lld)) + nhc_udp_header_len ports
+     | LpRaw _ _ => blen (iphc_bytes (lp_iphc_repr d lls lld)) end) <= k ->
+    lp_sixlowpan_to_ipv6 ctx lls lld (firstn (Z.to_nat k) c) total buflen =
+    Ok (firstn (Z.to_nat (k + (blen D - blen c))) D).
+  Proof.
+    intros Hc HD Htot Hbuf Hk Hchdr. destruct Hwf as (Hr & Hp).
+    destruct (lp_wf_addrs d lls lld Hwf) as (Hsa & Hda & Hhl).
+    unfold lp_compressed, lp_ipv6_bytes in *.
+    remember (lp_iphc_repr d lls lld) as r eqn:Er.
+    assert (Hrs : ir_src r = ld_src d /\ ir_dst r = ld_dst d /\ ir_hl r = ld_hl d /\
+                  ir_ll_src r = lls /\ ir_ll_dst r = lld) by (subst r; cbn; auto).
+    destruct Hrs as (Rs & Rd & Rh & Rls & Rld).
+    pose proof (blen_nonneg (iphc_bytes r)) as HnI.
+    assert (Lsrc : blen (ld_src d) = 16) by (unfold is_arr in Hsa; bsplit; lia).
+    assert (Ldst : blen (ld_dst d) = 16) by (unfold is_arr in Hda; bsplit; lia).
+    unfold lp_sixlowpan_to_ipv6.
+    destruct (ld_pl d) as [ports data|proto bytes] eqn:Epl.
+    - (* UDP through LOWPAN_NHC *)
+      destruct Hp as (Hpw & Hdb & Hdl). obind_inv Hc. injection Hc as <-. rename v into ck.
+      obind_inv HD. rewrite E in E0. injection E0 as <-. injection HD as <-.
+      destruct (nhc_ports_wf_inv ports Hpw) as (Hsp & Hdp).
+      pose proof (nhc_udp_cksum_range (ld_src d) (ld_dst d) _ _ data ck Hsa Hda Hsp Hdp Hdb ltac:(lia) E) as Hckr.
+      pose proof (nhc_ck_tx_range ck Hckr) as Hckr'.
+      pose proof (nhc_udp_hdr_bytes_len ports (nhc_ck_tx ck)) as HnN. pose proof (blen_nonneg data) as Hnd.
+      assert (Hh : 4 <= nhc_udp_header_len ports <= 7).
+      { unfold nhc_udp_header_len. repeat match goal with |- context [if ?c then _ else _] => destruct c end; lia. }
+      unfold lp_udp_header, lp_ipv6_header, be_enc2 in *. autorewrite with blen in Hbuf, Htot, Hk, Hchdr |- *.
+      remember (k - blen (iphc_bytes r) - nhc_udp_header_len ports) as j eqn:Ej.
+      assert (Hj : 0 <= j <= blen data) by lia.
+      (* the frame: IPHC ++ NHC ++ first j payload octets *)
+      assert (Efr : firstn (Z.to_nat k) (iphc_bytes r ++ nhc_udp_hdr_bytes ports (nhc_ck_tx ck) ++ data) =
+                    iphc_bytes r ++ (nhc_udp_hdr_bytes ports (nhc_ck_tx ck) ++ firstn (Z.to_nat j) data)).
+      { rewrite firstn_app_more by (unfold blen in *; lia). f_equal.
+        rewrite firstn_app_more by (unfold blen in *; lia). f_equal. f_equal. unfold blen in *. lia. }
+      rewrite Efr. set (p := nhc_udp_hdr_bytes ports (nhc_ck_tx ck) ++ firstn (Z.to_nat j) data).
+      destruct (iphc_parse_bytes r p ctx Hr) as (Hpa & Hcl & Hpl & _).
+      rewrite Hcl. cbn [obind]. rewrite Rls, Rld in Hpa. rewrite Hpa. cbn [obind].
+      replace (buflen <? lp_IPV6_HDR) with false by (symmetry; apply Z.ltb_ge; unfold lp_IPV6_HDR; zfold; lia).
+      rewrite Hpl. cbn [obind].
+      assert (Rnh : ir_nh r = None) by (subst r; cbn; rewrite Epl; reflexivity).
+      rewrite Rnh, Rs, Rd, Rh. cbn [lp_decompress_loop]. subst p. rewrite nhc_dispatch_udp_hdr. cbn [obind].
+      change (1 =? 0) with false. cbv iota.
+      (* decompress_udp *)
+      assert (Hjl : blen (firstn (Z.to_nat j) data) = j) by (apply blen_firstn; lia).
+      destruct (nhc_udp_parse_bytes ports (nhc_ck_tx ck) (firstn (Z.to_nat j) data) (ld_src d) (ld_dst d) Hpw ltac:(lia))
+        as (N1 & N2 & N3 & N4 & _).
+      cbv zeta in N1, N2, N3, N4.
+      unfold lp_decompress_udp. rewrite N1. cbn [obind]. rewrite N3. cbn [obind]. rewrite N2. cbn [obind].
+      cbn [ds_room ds_out ds_payload_len]. rewrite Hjl. unfold lp_UDP_HDR, lp_IPV6_HDR. zfold.
+      replace (buflen - 40 <? 8 + j) with false by (symmetry; apply Z.ltb_ge; lia).
+      zfold.
+      assert (Hupl : (match total with
+                      | Some t => if t <? 48 then Err 0 else Ok (t - 48)
+                      | None => Ok j end) = Ok (blen data)).
+      { destruct Htot as [(-> & Hkc)| ->]; [f_equal; lia|].
+        match goal with |- context [?a <? ?b] => replace (a <? b) with false by (symmetry; apply Z.ltb_ge; lia) end.
+        f_equal. lia. }
+      rewrite Hupl. cbn [obind]. rewrite N4. cbn [obind app]. unfold lp_decompress_next_header.
+      rewrite nhc_dispatch_udp_hdr. cbn [obind]. change (1 =? 0) with false. cbv iota. cbn [obind].
+      unfold lpf_usub. cbn [ds_out ds_payload_len ds_room].
+      assert (Hpl2 : match total with Some t => t | None => 40 + blen data + 8 end = 48 + blen data).
+      { destruct Htot as [(-> & _)| ->]; lia. }
+      rewrite Hpl2. replace (48 + blen data <? 40) with false by (symmetry; apply Z.ltb_ge; lia). cbn [obind].
+      f_equal.
+      (* both sides: 40-octet header ++ 8-octet UDP header ++ first j payload octets *)
+      unfold lp_PROTO_UDP. zfold.
+      replace (48 + blen data - 40) with (8 + blen data) by lia.
+      rewrite (Z.mod_small (8 + blen data) 65536) by lia.
+      replace ((8 + blen data) mod 65536) with (8 + blen data) by (symmetry; apply Z.mod_small; lia).
+      replace ((if nhc_ck_tx ck =? 0 then 65535 else nhc_ck_tx ck)) with (nhc_ck_tx ck).
+      2: { unfold nhc_ck_tx. destruct (ck =? 0) eqn:E0; [reflexivity|]. rewrite E0. reflexivity. }
+      change (if ck =? 0 then 65535 else ck) with (nhc_ck_tx ck).
+      set (P := lp_ipv6_header (ld_src d) (ld_dst d) 17 (ld_hl d) (8 + blen data) ++
+                lp_udp_header ports (8 + blen data) (nhc_ck_tx ck)).
+      assert (LP : length P = 48%nat).
+      { subst P. unfold lp_ipv6_header, lp_udp_header, be_enc2. rewrite !app_length. unfold blen in *. cbn [length]. lia. }
+      transitivity (P ++ firstn (Z.to_nat j) data); [subst P; norm_app; reflexivity|].
+      symmetry. apply firstn_prefix_eq; [subst P; norm_app; reflexivity|]. rewrite LP. unfold blen in *. lia.
+    - (* ICMPv6 / TCP: copied verbatim *)
+      destruct Hp as (Hpr & Hbb & Hbl2). injection Hc as <-. injection HD as <-.
+      pose proof (blen_nonneg bytes) as Hnb.
+      unfold lp_ipv6_header, be_enc2 in *. autorewrite with blen in Hbuf, Htot, Hk, Hchdr |- *.
+      remember (k - blen (iphc_bytes r)) as j eqn:Ej.
+      assert (Hj : 0 <= j <= blen bytes) by lia.
+      assert (Efr : firstn (Z.to_nat k) (iphc_bytes r ++ bytes) = iphc_bytes r ++ firstn (Z.to_nat j) bytes).
+      { rewrite firstn_app_more by (unfold blen in *; lia). f_equal. f_equal. unfold blen in *. lia. }
+      rewrite Efr. set (p := firstn (Z.to_nat j) bytes).
+      destruct (iphc_parse_bytes r p ctx Hr) as (Hpa & Hcl & Hpl & _).
+      rewrite Hcl. cbn [obind]. rewrite Rls, Rld in Hpa. rewrite Hpa. cbn [obind].
+      replace (buflen <? lp_IPV6_HDR) with false by (symmetry; apply Z.ltb_ge; unfold lp_IPV6_HDR; zfold; lia).
+      rewrite Hpl. cbn [obind].
+      assert (Rnh : ir_nh r = Some proto) by (subst r; cbn; rewrite Epl; reflexivity).
+      rewrite Rnh, Rs, Rd, Rh. cbn [lp_decompress_loop].
+      assert (Hjl : blen p = j) by (subst p; apply blen_firstn; lia).
+      replace ((proto =? lp_PROTO_TCP) || (proto =? lp_PROTO_UDP) || (proto =? lp_PROTO_ICMPV6)) with true
+        by (destruct Hpr as [-> | ->]; reflexivity).
+      cbn [ds_room ds_out ds_payload_len]. rewrite Hjl. unfold lp_IPV6_HDR. zfold.
+      replace (buflen - 40 <? j) with false by (symmetry; apply Z.ltb_ge; lia). cbn [obind app lp_decompress_next_header].
+      cbn [ds_out ds_payload_len]. unfold lpf_usub.
+      assert (Hpl2 : match total with Some t => t | None => 40 + j end = 40 + blen bytes).
+      { destruct Htot as [(-> & Hkc)| ->]; lia. }
+      rewrite Hpl2. replace (40 + blen bytes <? 40) with false by (symmetry; apply Z.ltb_ge; lia). cbn [obind].
+      f_equal.
+      replace (40 + blen bytes - 40) with (blen bytes) by lia.
+      rewrite (Z.mod_small (blen bytes) 65536) by lia.
+      assert (Hpm : proto mod 256 = proto) by (destruct Hpr as [-> | ->]; reflexivity). rewrite Hpm.
+      set (P := lp_ipv6_header (ld_src d) (ld_dst d) proto (ld_hl d) (blen bytes)).
+      assert (LP : length P = 40%nat).
+      { subst P. unfold lp_ipv6_header, be_enc2. rewrite !app_length. unfold blen in *. cbn [length]. lia. }
+      transitivity (P ++ firstn (Z.to_nat j) bytes); [subst P p; norm_app; reflexivity|].
+      symmetry. apply firstn_prefix_eq; [subst P; norm_app; reflexivity|]. rewrite LP. unfold blen in *. lia.
+  Qed.
+End Roundtrip.
+
+(* lowpan_roundtrip (unfragmented): sixlowpan_to_ipv6 (ipv6_to_sixlowpan d) = d, for EVERY datagram
+   the stack can send (UDP on any ports, ICMPv6, TCP; any addresses and hop limit; any link-layer
+   addresses, the same on both sides), any previous content of the transmit buffer, any context
+   table at the receiver *)
+Theorem lp_roundtrip d lls lld ctx c D buffer buflen :
+  lp_dgram_wf d lls lld -> lp_compressed d lls lld = Ok c -> lp_ipv6_bytes d = Ok D ->
+  bytes_ok buffer = true -> blen c <= blen buffer -> blen D <= buflen ->
+  lp_ipv6_to_sixlowpan d lls lld buffer = Ok (c ++ skipn (Z.to_nat (blen c)) buffer) /\
+  lp_sixlowpan_to_ipv6 ctx lls lld c None buflen = Ok D.
+Proof.
+  intros Hwf Hc HD Hb Hl Hbuf. split; [apply lp_ipv6_to_sixlowpan_spec; assumption|].
+  destruct (lp_compressed_packet_size_spec d lls lld c Hwf Hc) as (chdr & uhdr & Hsz & Hh & Hcc & _ & _ & Hdiff).
+  pose proof (lp_decompress_prefix d lls lld ctx Hwf c D (blen c) None buflen Hc HD
+                ltac:(left; split; reflexivity) Hbuf ltac:(lia)) as H.
+  rewrite firstn_all2 in H by (unfold blen; lia).
+  replace (blen c + (blen D - blen c)) with (blen D) in H by lia.
+  rewrite firstn_all2 in H by (unfold blen; lia).
+  apply H.
+  (* the compressed headers end inside the packet *)
+  unfold lp_compressed in Hc. destruct (ld_pl d) as [ports data|proto bytes].
+  - obind_inv Hc. injection Hc as <-. rewrite !blen_app, nhc_udp_hdr_bytes_len.
+    pose proof (blen_nonneg data). lia.
+  - injection Hc as <-. rewrite blen_app. pose proof (blen_nonneg bytes). lia.
+Qed.
+
+Lemma skipn_app_exact {A} (a b : list A) n : n = length a -> skipn n (a ++ b) = b.
+Proof. intros ->. rewrite skipn_app, skipn_all, Nat.sub_diag. reflexivity. Qed.
+
+Lemma lp_ipv6_bytes_len d lls lld D : lp_dgram_wf d lls lld -> lp_ipv6_bytes d = Ok D ->
+  blen D = lp_payload_len (ld_pl d) + lp_IPV6_HDR.
+Proof.
+  intros Hwf HD. destruct (lp_wf_addrs d lls lld Hwf) as (Hsa & Hda & _).
+  assert (Lsrc : blen (ld_src d) = 16) by (unfold is_arr in Hsa; bsplit; lia).
+  assert (Ldst : blen (ld_dst d) = 16) by (unfold is_arr in Hda; bsplit; lia).
+  unfold lp_ipv6_bytes in HD. destruct (ld_pl d) as [ports data|proto bytes].
+  - obind_inv HD. injection HD as <-. unfold lp_ipv6_header, lp_udp_header, be_enc2, lp_payload_len, lp_IPV6_HDR, lp_UDP_HDR.
+    autorewrite with blen. zfold. lia.
+  - injection HD as <-. unfold lp_ipv6_header, be_enc2, lp_payload_len, lp_IPV6_HDR. autorewrite with blen. zfold. lia.
+Qed.
+
+(* the datagram and the compressed packet end in the same octets *)
+Lemma lp_tails d lls lld c D chdr uhdr : lp_dgram_wf d lls lld ->
+  lp_compressed d lls lld = Ok c -> lp_ipv6_bytes d = Ok D ->
+  lp_compressed_packet_size d lls lld = Ok (blen c, chdr, uhdr) ->
+  exists Pc Pd tail, c = Pc ++ tail /\ D = Pd ++ tail /\ blen Pc = chdr /\ blen Pd = uhdr.
+Proof.
+  intros Hwf Hc HD Hsz. destruct Hwf as (Hr & Hp). destruct (lp_wf_addrs d lls lld (conj Hr Hp)) as (Hsa & Hda & _).
+  assert (Lsrc : blen (ld_src d) = 16) by (unfold is_arr in Hsa; bsplit; lia).
+  assert (Ldst : blen (ld_dst d) = 16) by (unfold is_arr in Hda; bsplit; lia).
+  unfold lp_compressed, lp_ipv6_bytes, lp_compressed_packet_size in *.
+  rewrite (iphc_buffer_len_spec _ Hr) in Hsz. cbn [obind] in Hsz.
+  destruct (ld_pl d) as [ports data|proto bytes].
+  - obind_inv Hc. obind_inv HD. injection Hsz as _ <- <-.
+    injection Hc as <-. injection HD as <-.
+    exists (iphc_bytes (lp_iphc_repr d lls lld) ++ nhc_udp_hdr_bytes ports (nhc_ck_tx v)).
+    exists (lp_ipv6_header (ld_src d) (ld_dst d) lp_PROTO_UDP (ld_hl d) (lp_UDP_HDR + blen data) ++
+            lp_udp_header ports (lp_UDP_HDR + blen data) (if v0 =? 0 then 65535 else v0)), data.
+    split; [rewrite <- app_assoc; reflexivity|]. split; [norm_app; reflexivity|].
+    split; [rewrite blen_app, nhc_udp_hdr_bytes_len; reflexivity|].
+    unfold lp_ipv6_header, lp_udp_header, be_enc2, lp_IPV6_HDR, lp_UDP_HDR. autorewrite with blen. zfold. lia.
+  - injection Hsz as _ <- <-. injection Hc as <-. injection HD as <-.
+    exists (iphc_bytes (lp_iphc_repr d lls lld)), (lp_ipv6_header (ld_src d) (ld_dst d) proto (ld_hl d) (blen bytes)), bytes.
+    split; [reflexivity|]. split; [norm_app; reflexivity|]. split; [reflexivity|].
+    unfold lp_ipv6_header, be_enc2, lp_IPV6_HDR. autorewrite with blen. zfold. lia.
+Qed.
+
+(* lowpan_roundtrip with fragmentation in between: compress, cut into FRAG1/FRAGN frames, let ANY
+   sub-multiset of the frames arrive in ANY order at a receiver whose reassembly slots satisfy the
+   invariant (e.g. fresh): every datagram delivered is d's IPv6 datagram, octet for octet *)
+Theorem lp_roundtrip_fragmented d lls lld ctx c D ieee_len tag chdr uhdr :
+  lp_dgram_wf d lls lld -> lp_compressed d lls lld = Ok c -> lp_ipv6_bytes d = Ok D ->
+  lp_compressed_packet_size d lls lld = Ok (blen c, chdr, uhdr) ->
+  5 <= ieee_len <= 21 -> lpf_needs_frag (blen c) ieee_len = true -> blen c <= lpf_BUFFER ->
+  forall frames arrivals rfs now timeout ll_src ll_dst ss,
+    lpf_send ieee_len c chdr uhdr (lp_payload_len (ld_pl d)) tag = Ok frames ->
+    incl arrivals frames ->
+    map (lpf_rx_of_frame (fun buflen =>
+           lp_sixlowpan_to_ipv6 ctx lls lld (firstn (Z.to_nat (lpf_f1 ieee_len (uhdr - chdr))) c)
+                                (Some (blen D)) buflen)) arrivals = map Some rfs ->
+    Forall (slot_inv D (ll_src, ll_dst, blen D, tag)) ss ->
+    exists ss' ds, lpf_process_all now timeout ll_src ll_dst rfs ss = Ok (ss', ds) /\
+                   Forall (slot_inv D (ll_src, ll_dst, blen D, tag)) ss' /\ Forall (fun x => x = D) ds.
+Proof.
+  intros Hwf Hc HD Hsz Hie Hneed Hbuf frames arrivals rfs now timeout ll_src ll_dst ss Hs Hincl Hmap Hss.
+  destruct (lp_compressed_packet_size_spec d lls lld c Hwf Hc) as (chdr' & uhdr' & Hsz' & Hh & Hcc & Hc45 & Hu48 & Hdiff).
+  rewrite Hsz in Hsz'. injection Hsz' as <- <-.
+  pose proof (lp_ipv6_bytes_len d lls lld D Hwf HD) as HDl.
+  assert (Hfit : blen c + (uhdr - chdr) < 2048).
+  { destruct lpf_config_fits as (Hcf & _). lia. }
+  destruct (lpf_f1_facts ieee_len c chdr uhdr 0 Hie Hneed) as (Hf1 & Hm & Hfit1 & Hlow).
+  assert (Hchdr : chdr <= lpf_f1 ieee_len (uhdr - chdr)).
+  { unfold lpf_MAX_FRAME, lpf_FRAG1_HDR in Hlow. zfold_in Hlow. lia. }
+  (* the payload octets behind the headers are the same in c and D *)
+  assert (Hrest : skipn (Z.to_nat chdr) c = skipn (Z.to_nat uhdr) D /\ uhdr <= blen D).
+  { destruct (lp_tails d lls lld c D chdr uhdr Hwf Hc HD Hsz) as (Pc & Pd & tail & -> & -> & Lc & Ld).
+    rewrite !skipn_app_exact by (unfold blen in *; lia). split; [reflexivity|].
+    rewrite blen_app. pose proof (blen_nonneg tail). lia. }
+  destruct Hrest as (Hrest & Hu).
+  apply (lpf_fragments_reassemble ieee_len c D chdr uhdr (lp_payload_len (ld_pl d)) tag
+           (fun buflen => lp_sixlowpan_to_ipv6 ctx lls lld (firstn (Z.to_nat (lpf_f1 ieee_len (uhdr - chdr))) c)
+                                               (Some (blen D)) buflen) Hie Hh Hneed Hbuf Hfit
+           Hrest Hcc Hu (eq_sym HDl : lp_payload_len (ld_pl d) + lpf_IPV6_HDR = blen D) Hchdr)
+    with (frames := frames) (arrivals := arrivals); try assumption.
+  - (* decompressing the first fragment gives the first f1 + header_diff octets of D *)
+    intros n Hn.
+    pose proof (lp_decompress_prefix d lls lld ctx Hwf c D (lpf_f1 ieee_len (uhdr - chdr)) (Some (blen D)) n Hc HD
+                  ltac:(right; reflexivity) Hn ltac:(lia)) as H.
+    replace (blen D - blen c) with (uhdr - chdr) in H by lia.
+    apply H.
+    unfold lp_compressed_packet_size in Hsz. destruct Hwf as (Hr & _).
+    rewrite (iphc_buffer_len_spec _ Hr) in Hsz. cbn [obind] in Hsz.
+    destruct (ld_pl d); injection Hsz as _ <- _; assumption.
+  - unfold lpf_IPV6_HDR. unfold lp_IPV6_HDR in HDl. pose proof (blen_nonneg c).
+    destruct (ld_pl d); cbn [lp_payload_len] in HDl; [pose proof (blen_nonneg data) | pose proof (blen_nonneg bytes)];
+      unfold lp_UDP_HDR in *; revert HDl; zfold; lia.
+Qed.
